@@ -555,9 +555,13 @@ LongEls(r) == {El("param", d, v, 3, IF d.loc = "path" THEN 2 ELSE 0, "none") :
 PathPrim == D3("path", "simple", "default", "prim")
 UrlEls == {El("url", PathPrim, v, b, t, "none") : v \in UrlVals, b \in Bases, t \in Tmpls}
 (* multipart/form-data: small text-only forms over the declared properties a, b (and the same with `a` declared as a binary /  *)
-(* file-like field).  Only the Content-Type's media type is judged for them; the multipart encoding itself is outside the fragment *)
+(* file-like field).  The Content-Type's media type and the decoded parts (MultipartVerdict below) are judged for them.          *)
 AllStr(v) == \A i \in 1..Len(v.items) : v.items[i].t = "str"
 MultipartVals(r) == {v \in {VObj(<<kA>>, <<x>>) : x \in ItemsA} \cup {VObj(<<kA, kB>>, p) : p \in ItemPairs(r)} : AllStr(v)}
+(* ... and forms whose field `a` is ARRAY-valued ("multipart-array": the pairs with the repeated key a are the items of the one field a, *)
+(* the driver presents <<a: x, a: y, b: z>> as {a: [x, y], b: z}): one item, two items, two items next to the scalar field b.           *)
+MultipartArrVals(r) == {v \in {VObj(<<kA>>, <<x>>) : x \in ItemsA} \cup {VObj(<<kA, kA>>, p) : p \in ItemPairs(r)}
+                                \cup {VObj(<<kA, kA, kB>>, p \o <<pA>>) : p \in ItemPairs(r)} : AllStr(v)}
 (* Media types whose payload encoding is outside the fragment (YAML, XML, binary, a non-object value sent as multipart): only the   *)
 (* Content-Type clause is judged for them.  A structured-syntax suffix (+json) is JSON; a form may be generated as a list of          *)
 (* one-pair objects ("form-list": the driver presents {a: x, b: y} as [{a: x}, {b: y}]) and must arrive as the same pairs.             *)
@@ -569,6 +573,7 @@ BodyEls(n, r) == {El("body", NoDef, v, 3, 0, "json") : v \in JsonVals(r)}
                     \cup {El("body", NoDef, v, 3, 0, m) : v \in {w \in SmallVals : w.k = "prim"}, m \in {"binary", "multipart-raw"}}
                     \cup {El("body", NoDef, VObj(<<kA, kB>>, p), 3, 0, "form-list") : p \in {q \in ItemPairs(r) : q[1].t \in {"str", "int"} /\ q[2].t \in {"str", "int"}}}
                     \cup {El("body", NoDef, v, 3, 0, m) : v \in MultipartVals(r), m \in {"multipart", "multipart-file"}}
+                    \cup {El("body", NoDef, v, 3, 0, "multipart-array") : v \in MultipartArrVals(r)}
                     \cup {El("body", NoDef, v, 3, 0, "form") : v \in ObjVals(r)}
                     \cup {El("body", NoDef, v, 3, 0, "text") : v \in TextVals(n)}
 (* ---- history of sends.  ONE case (query q = the value, cookie c = 1, header X-H = h) is sent two or three times; a send may carry    *)
@@ -598,6 +603,85 @@ Spec == Init /\ [][Next]_el
 (* media type of a Content-Type field value: the part before the parameters, blanks trimmed, case-insensitive (RFC 7231 3.1.1.1) *)
 LowerCase(t) == [i \in 1..Len(t) |-> IF t[i] \in 65..90 THEN t[i] + 32 ELSE t[i]]
 MediaTypeOf(t) == LowerCase(Reverse(StripLeft(Reverse(StripLeft(SplitFirst(t, cSEMI).a)))))
+
+-----------------------------------------------------------------------------
+(* multipart/form-data (RFC 7578) in the multipart syntax of RFC 2046 5.1.1:                                                         *)
+(*   body := [preamble CRLF] "--" boundary CRLF part *(CRLF "--" boundary CRLF part) CRLF "--" boundary "--" [CRLF epilogue]          *)
+(*   part := header fields, an empty line, the content (a part without an empty line has header fields only and empty content)       *)
+(* the boundary is the `boundary` parameter of the Content-Type; the field a part belongs to is the `name` parameter of its           *)
+(* Content-Disposition (RFC 7578 4.2); `filename` and a part's own Content-Type do not change which field / what content it is.       *)
+(* RFC 7578 4.3 and OpenAPI 3.0 ("Special Considerations for multipart Content"): a field with several values (an array) is sent as  *)
+(* ONE PART PER VALUE, all with the field's name, in the order of the values.  Field names of the family are plain tokens.            *)
+cCR == 13      cLF == 10
+CRLF == <<cCR, cLF>>
+DashDash == <<cMINUS, cMINUS>>
+StartsWith(s, p) == Len(s) >= Len(p) /\ SubSeq(s, 1, Len(p)) = p
+SplitSeq(s, d) ==      \* split on every (leftmost, non-overlapping) occurrence of the non-empty sequence d
+    LET n == Len(d)
+        r == FoldLeft(LAMBDA st, i : IF st.skip > 0 THEN [st EXCEPT !.skip = @ - 1]
+                                     ELSE IF i + n - 1 <= Len(s) /\ SubSeq(s, i, i + n - 1) = d
+                                          THEN [parts |-> Append(st.parts, st.cur), cur |-> <<>>, skip |-> n - 1]
+                                          ELSE [st EXCEPT !.cur = Append(@, s[i])],
+                      [parts |-> <<>>, cur |-> <<>>, skip |-> 0], [i \in 1..Len(s) |-> i])
+    IN  Append(r.parts, r.cur)
+Trim(t) == Reverse(StripLeft(Reverse(StripLeft(t))))
+Unquote(t) == IF Len(t) >= 2 /\ t[1] = cDQ /\ t[Len(t)] = cDQ THEN SubSeq(t, 2, Len(t) - 1) ELSE t
+(* parameter `name` of a field value `token *( ";" name "=" ( token / quoted-string ) )` (RFC 7231 3.1.1.1, RFC 6266 4.1) *)
+ParamOf(field, name) ==
+    LET ps == Tail(Split(field, cSEMI))
+        kv == [j \in 1..Len(ps) |-> SplitFirst(ps[j], cEQ)]
+        hit == {j \in 1..Len(ps) : kv[j].f /\ LowerCase(Trim(kv[j].a)) = name}
+    IN  IF hit = {} THEN [ok |-> FALSE, v |-> <<>>]
+        ELSE [ok |-> TRUE, v |-> Unquote(Trim(kv[CHOOSE j \in hit : \A k \in hit : j <= k].b))]
+tBoundary == <<98, 111, 117, 110, 100, 97, 114, 121>>                                                            \* "boundary"
+tName == <<110, 97, 109, 101>>                                                                                   \* "name"
+tContentDisposition == <<99, 111, 110, 116, 101, 110, 116, 45, 100, 105, 115, 112, 111, 115, 105, 116, 105, 111, 110>>   \* "content-disposition"
+PartOf(p) ==
+    LET sp == SplitSeq(p, CRLF \o CRLF)
+        hc == IF StartsWith(p, CRLF) THEN [h |-> <<>>, c |-> SubSeq(p, 3, Len(p))]       \* no header fields at all
+              ELSE [h |-> sp[1], c |-> Join(Tail(sp), CRLF \o CRLF)]
+        lines == SplitSeq(hc.h, CRLF)
+        fld == [j \in 1..Len(lines) |-> SplitFirst(lines[j], cCOLON)]
+        cd == {j \in 1..Len(lines) : fld[j].f /\ LowerCase(Trim(fld[j].a)) = tContentDisposition}
+        nm == IF cd = {} THEN [ok |-> FALSE, v |-> <<>>] ELSE ParamOf(fld[CHOOSE j \in cd : \A k \in cd : j <= k].b, tName)
+    IN  [ok |-> nm.ok, n |-> nm.v, c |-> hc.c]
+MultipartParse(ct, body) ==
+    LET bd == ParamOf(ct, tBoundary)
+        pieces == SplitSeq(CRLF \o body, CRLF \o DashDash \o bd.v)          \* [preamble, CRLF part, ..., "--" epilogue]
+        n == Len(pieces)
+        ok == /\ bd.ok /\ bd.v # <<>> /\ n >= 2
+              /\ StartsWith(pieces[n], DashDash)
+              /\ \A j \in 2..(n - 1) : StartsWith(pieces[j], CRLF)
+        parts == [j \in 1..(n - 2) |-> PartOf(SubSeq(pieces[j + 1], 3, Len(pieces[j + 1])))]
+    IN  IF ok /\ \A j \in 1..(n - 2) : parts[j].ok THEN [ok |-> TRUE, parts |-> parts] ELSE [ok |-> FALSE, parts |-> <<>>]
+MultipartMedia == {"multipart", "multipart-file", "multipart-array"}
+WantParts(v) == [j \in 1..Len(v.items) |-> [n |-> v.keys[j], t |-> Coerce(v.items[j])]]
+ValuesOf(parts, name) == LET sel == SelectSeq(parts, LAMBDA p : p.n = name) IN [j \in 1..Len(sel) |-> sel[j].t]
+(* "T": the body is a multipart message under the Content-Type's boundary whose parts are, field by field, the values of the case *)
+MultipartVerdict(v, ct, body) ==
+    LET m == MultipartParse(ct, body)
+        dn == [j \in 1..Len(m.parts) |-> Utf8Decode(m.parts[j].n)]
+        dc == [j \in 1..Len(m.parts) |-> Utf8Decode(m.parts[j].c)]
+        got == [j \in 1..Len(m.parts) |-> [n |-> dn[j].t, t |-> dc[j].t]]
+        want == WantParts(v)
+        names == {got[j].n : j \in 1..Len(got)} \cup {want[j].n : j \in 1..Len(want)}
+    IN  IF /\ m.ok /\ \A j \in 1..Len(m.parts) : ~dn[j].bad /\ ~dc[j].bad
+           /\ \A x \in names : ValuesOf(got, x) = ValuesOf(want, x)
+        THEN "T" ELSE "F"
+(* reference encoding read off the same grammar (boundary "x"), and what a serializer that flattens an array field would send *)
+tCD == <<67, 111, 110, 116, 101, 110, 116, 45, 68, 105, 115, 112, 111, 115, 105, 116, 105, 111, 110, 58, 32,
+         102, 111, 114, 109, 45, 100, 97, 116, 97, 59, 32, 110, 97, 109, 101, 61, 34>>                 \* `Content-Disposition: form-data; name="`
+RefMultipart(parts, b) == FoldLeft(LAMBDA a, p : a \o DashDash \o b \o CRLF \o tCD \o Utf8Encode(p.n) \o <<cDQ>> \o CRLF \o CRLF
+                                                   \o Utf8Encode(p.t) \o CRLF, <<>>, parts) \o DashDash \o b \o DashDash \o CRLF
+RefCtype(b) == <<109, 117, 108, 116, 105, 112, 97, 114, 116, 47, 102, 111, 114, 109, 45, 100, 97, 116, 97, 59, 32>> \o tBoundary \o <<cEQ>> \o b
+Flattened(v) == LET w == WantParts(v)
+                    xs == ValuesOf(w, kA)
+                IN  <<[n |-> kA, t |-> Join(xs, <<cCOMMA>>)]>> \o SelectSeq(w, LAMBDA p : p.n # kA)
+(* the decoder is a left inverse of the reference encoder on the family; a flattened array field (two items in one part) is rejected *)
+MultipartRoundTrip == (el.kind = "body" /\ el.media \in MultipartMedia) =>
+    /\ MultipartVerdict(el.val, RefCtype(<<120>>), RefMultipart(WantParts(el.val), <<120>>)) = "T"
+    /\ Len(ValuesOf(WantParts(el.val), kA)) >= 2
+          => MultipartVerdict(el.val, RefCtype(<<120>>), RefMultipart(Flattened(el.val), <<120>>)) = "F"
 
 TypeOK == el.kind \in {"param", "url", "body", "hist"} /\ el.val.k \in {"prim", "arr", "obj"}
 (* the decoders are left inverses of the table's encoder on the fragment *)
